@@ -406,3 +406,118 @@ Proof.
     inversion H as [|x l' Hn Hd]; subst. apply Hn. now left.
   - exists [b "a:"; b "r:n:"]. destruct prefix_not_idempotent as [E1 E2]. rewrite E1, E2. discriminate.
 Qed.
+
+(* ---------- the cache key determines the canonical scope set ---------- *)
+(* a scope that can be an element of a space-separated key: not empty, no space *)
+Definition key_safe (s : str) : Prop := is_empty s = false /\ contains c_space s = false.
+
+Lemma join_nonempty sep x m : is_empty x = false -> is_empty (join sep (x :: m)) = false.
+Proof.
+  intro H. destruct m as [|y m']; [exact H|].
+  change (join sep (x :: y :: m')) with (x ++ sep ++ join sep (y :: m')). destruct x; [discriminate | reflexivity].
+Qed.
+
+Lemma join_space_inj l l' :
+  (forall s, In s l -> key_safe s) -> (forall s, In s l' -> key_safe s) ->
+  join [c_space] l = join [c_space] l' -> l = l'.
+Proof.
+  intros H H' E.
+  destruct l as [|x m], l' as [|x' m']; auto.
+  - exfalso. pose proof (join_nonempty [c_space] x' m' (proj1 (H' x' (or_introl eq_refl)))) as N.
+    rewrite <- E in N. discriminate.
+  - exfalso. pose proof (join_nonempty [c_space] x m (proj1 (H x (or_introl eq_refl)))) as N.
+    rewrite E in N. discriminate.
+  - rewrite <- (split_join c_space (x :: m)); [|discriminate | intros s Hs; apply H, Hs].
+    rewrite <- (split_join c_space (x' :: m')); [|discriminate | intros s Hs; apply H', Hs].
+    now rewrite E.
+Qed.
+
+Lemma contains_firstn d i s : contains d (firstn i s) = true -> contains d s = true.
+Proof.
+  revert i; induction s as [|c s IH]; intros [|i]; simpl; try discriminate.
+  intro H. apply orb_true_iff in H as [H|H]; [now rewrite H | rewrite (IH _ H); apply orb_true_r].
+Qed.
+
+Lemma merge_subset A x : In x (merge_actions A) -> In x A \/ x = [c_star].
+Proof.
+  unfold merge_actions. destruct (existsb is_star A).
+  - intros [<-|[]]. now right.
+  - intro H. left. exact (proj1 (canon_in x A) H).
+Qed.
+
+(* cleaning space-free, non-empty scopes gives space-free, non-empty scopes *)
+Lemma clean_key_safe l y :
+  (forall s, In s l -> key_safe s) -> In y (clean_scopes l) -> key_safe y.
+Proof.
+  intros H Hy. rewrite clean_eq_slow in Hy. apply slow_in, in_presort in Hy as [Hy|(k & Hk & Hy)].
+  - apply in_map_iff in Hy as (s & E & Hs). pose proof (pass_self _ _ E). subst. auto.
+  - apply in_keys_of in Hk as [(a0 & Ha0) _]. apply in_map_iff in Ha0 as (s0 & E0 & Hs0).
+    destruct k as [t n]. simpl in E0.
+    unfold rebuild in Hy. destruct (acts_of (t, n) (map classify l)) as [|x X] eqn:EA; [destruct Hy|].
+    destruct Hy as [<-|[]]. simpl fst. simpl snd.
+    (* the type and the name are pieces of s0 *)
+    destruct (classify_cases s0) as [(_ & E)|[(t1 & r1 & _ & _ & _ & _ & _ & E)|
+      (t1 & n1 & a1 & Es & _ & _ & _ & _ & E)]]; try congruence.
+    rewrite E0 in E. destruct (is_empty a1); [discriminate|]. injection E as <- <- _.
+    destruct (H s0 Hs0) as [_ Fs]. rewrite Es, !contains_app in Fs. simpl in Fs.
+    rewrite contains_app in Fs. simpl in Fs.
+    apply orb_false_iff in Fs as [Ft Fs]. apply orb_false_iff in Fs as [Fn _].
+    split.
+    + destruct t; reflexivity.
+    + rewrite !contains_app. simpl. rewrite Ft, Fn. simpl.
+      apply contains_join; [reflexivity|].
+      intros z Hz. apply merge_subset in Hz as [Hz| ->]; [|reflexivity].
+      rewrite <- EA in Hz. apply in_acts_of in Hz as (acts & Hin & Hz).
+      apply in_map_iff in Hin as (s1 & E1 & Hs1). simpl in E1.
+      destruct (classify_cases s1) as [(_ & E)|[(t2 & r2 & _ & _ & _ & _ & _ & E)|
+        (t2 & n2 & a2 & Es2 & _ & _ & _ & _ & E)]]; try congruence.
+      rewrite E1 in E. destruct (is_empty a2); [discriminate|]. injection E as _ _ ->.
+      apply filter_In in Hz as [Hz _]. destruct (split_pieces _ _ _ Hz) as [_ B].
+      destruct (contains c_space z) eqn:Ez; auto. apply B in Ez.
+      destruct (H s1 Hs1) as [_ Fs1]. rewrite Es2, !contains_app in Fs1. simpl in Fs1.
+      rewrite contains_app in Fs1. simpl in Fs1. rewrite Ez in Fs1.
+      rewrite !orb_true_r in Fs1. discriminate.
+Qed.
+
+(* equal cache keys <=> equal canonical scope sets, for scopes without spaces *)
+Lemma key_determines_scopes l l' :
+  (forall s, In s l -> key_safe s) -> (forall s, In s l' -> key_safe s) ->
+  join [c_space] (clean_scopes l) = join [c_space] (clean_scopes l') ->
+  clean_scopes l = clean_scopes l'.
+Proof.
+  intros H H' E. apply join_space_inj; [intros s Hs; exact (clean_key_safe l s H Hs) | intros s Hs; exact (clean_key_safe l' s H' Hs) | exact E].
+Qed.
+
+(* a hint containing a space aliases the key of a different scope set *)
+Lemma key_alias_with_space :
+  let l := [b "repository:a:pull repository:b:pull"] in
+  let l' := [b "repository:a:pull"; b "repository:b:pull"] in
+  join [c_space] (clean_scopes l) = join [c_space] (clean_scopes l') /\ clean_scopes l <> clean_scopes l'.
+Proof. split; vm_compute; [reflexivity | discriminate]. Qed.
+
+(* ---------- wildcard / membership without the length restriction ---------- *)
+Lemma star_absorbs_all l s t n a :
+  In s l -> classify s = Keyed t n a -> In [c_star] a ->
+  In (t ++ [c_colon] ++ n ++ [c_colon] ++ [c_star]) (clean_scopes l).
+Proof.
+  intros Hs Hc Hstar.
+  rewrite (clean_scopes_same l (l ++ l)) by (intro x; rewrite in_app_iff; tauto).
+  apply (star_absorbs (l ++ l) s t n a); auto.
+  - destruct l as [|x l']; [destruct Hs|]. simpl. rewrite app_length. simpl. lia.
+  - apply in_app_iff. now left.
+Qed.
+
+Lemma clean_scopes_members_all l y :
+  In y (clean_scopes l) <->
+  (In y l /\ classify y = Pass y) \/
+  exists k, In k (keys_of (map classify l) []) /\ rebuild (map classify l) k = [y].
+Proof.
+  rewrite clean_eq_slow, slow_in, in_presort.
+  assert (HP : In (Pass y) (map classify l) <-> In y l /\ classify y = Pass y).
+  { rewrite in_map_iff. split.
+    - intros (s & E & Hs). pose proof (pass_self _ _ E). subst. auto.
+    - intros [H E]. exists y. auto. }
+  rewrite HP. split; (intros [H|(k & Hk & Hy)]; [left; exact H | right; exists k; split; auto]).
+  - now apply rebuild_singleton.
+  - rewrite Hy. now left.
+Qed.
